@@ -421,6 +421,28 @@ def check_refusals(case, ctx: Ctx):
     before = snapshot(a)
     ctx.label("refusal_" + kind)
     ctx.nt()
+    prelude = case.get("prelude")
+    if prelude:
+        # a free-arithmetics block that was entered and left earlier (normally, through an exception crossing the
+        # context manager, nested): afterwards the mode is off again and everything below must be refused as usual
+        class _Boom(Exception):
+            pass
+
+        try:
+            with config.enable_free_arithmetics():
+                if prelude == "nested":
+                    with config.enable_free_arithmetics():
+                        a + 0
+                if prelude in ("exception", "nested"):
+                    raise _Boom()
+                a + 0
+        except _Boom:
+            pass
+        ctx.label("after_free_block_" + prelude)
+        leaked = bool(config.free_arithmetics)
+        if leaked:
+            config.free_arithmetics = False  # do not let one failing case change the next ones
+        require(not leaked, "free_arithmetics_leaked", f"after a block left by {prelude}")
     if kind == "different_edges":
         b = hgen.build(case["b"])
         same = snapshot(a)["binnings"] == snapshot(b)["binnings"]
@@ -488,6 +510,7 @@ def refusal_cases(draw, tier="quick"):
     elif kind == "different_ndim":
         other = [x for x in (1, 2, 3) if x != len(a["axes"])]
         case["b"] = draw(hgen.hist_spec(dims=tuple(other), dtypes=["int64", "float64"], adaptive=False, forms=("edges", "static", "numpy", "fixed")))
+    case["prelude"] = draw(st.sampled_from([None, None, "normal", "exception", "nested"]))
     return case
 
 
